@@ -28,6 +28,11 @@
 (* kind "bnd": [id, kind, N, lpd, total, per, grp, small] -- results of the *)
 (*   real bounds() for every single client and for client ranges; numbers   *)
 (*   are [h, l] = h * 10^6 + l.  L1: the slices chain up from 0 to total.   *)
+(* kind "pct": [id, kind, b, rows] -- a group whose real parameter source    *)
+(*   hands out b bulks at 100 %; rows = <<[num, den, got]>>: with            *)
+(*   ingest-percentage num / den (per cent, exact) the real source handed    *)
+(*   out `got` bulks before StopIteration.  L1 (PctStop): got = ceil(b *     *)
+(*   num / (100 * den)) in integer arithmetic; L2 is the same formula.       *)
 (* Output: <<"V", id, step, "L1", {clause}>> per failing clause,            *)
 (*         <<"V", id, step, "L2", {}>>, and <<"DONE", #items, #steps>>.     *)
 (***************************************************************************)
@@ -135,6 +140,13 @@ BoundsChain(it) ==
             /\ r.n = LSumN(it.per, r.a + 1, r.b + 1)
             /\ r.ln = LScale(r.n, it.lpd)
 
+(* pct items *)
+PctItem(it) ==
+    LET bad == {r \in 1..Len(it.rows) : it.rows[r].got # PctBulks(it.b, it.rows[r].num, 100 * it.rows[r].den)}
+        l1 == IF bad = {} THEN {} ELSE {"PctStop"}
+    IN /\ Blank
+       /\ Report(it, 0, l1, TRUE)
+
 BoundsItem(it) ==
     LET l1 == IF BoundsChain(it) THEN {} ELSE {"BoundsChain"}
         l2 == ~it.small \/ \A i \in 1..it.N : Nearest(it.per[i].s.l \div it.lpd, it.total.l, i - 1, it.N)
@@ -149,6 +161,7 @@ Consume ==
     /\ LET it == Items[tid]
        IN IF it.kind = "run" THEN (IF l = 0 THEN RunConfigure(it) ELSE RunEvent(it))
           ELSE IF it.kind = "seek" THEN SeekItem(it)
+          ELSE IF it.kind = "pct" THEN PctItem(it)
           ELSE BoundsItem(it)
 
 NextTrace ==
